@@ -45,7 +45,7 @@ try:
             os.makedirs(os.path.join(ROOT, "replay", pid), exist_ok=True)
             for l in viol[:2]:
                 rp = l.split("replay=")[1].strip()
-                if os.path.exists(rp):
+                if os.path.exists(rp) and not os.path.abspath(rp).startswith(os.path.join(ROOT, "replay") + os.sep):
                     name = (a.name or (a.revert or os.path.basename(a.patch)).replace(".diff", "")) + "-" + os.path.basename(rp)[:8] + (".case" if rp.endswith(".case") else ".fuzz")
                     shutil.copy(rp, os.path.join(ROOT, "replay", pid, name))
                     print("  saved", name)
